@@ -160,6 +160,7 @@ def seeded(rng, alphabet, weights=None, max_len=12, ids=None, progress_p=0.5, ca
         case["writer"] = rng.choice(["closed", "blocked"])
     if case["progress"] and rng.random() < 0.3:
         case["cbRaises"] = sorted(set(rng.randint(0, 4) for _ in range(rng.randint(1, 3))))
+        case["cbExc"] = rng.randint(0, 10)  # which exception class the failing callback raises
     return place(case)
 
 
